@@ -114,7 +114,7 @@ pub fn output_tokens(
     // A method that consumes `self` moves the `T` out of the `Impl<T>`
     let params = out_trait.generics.impl_params_from_idents(
         generic_idents,
-        generics::has_any_self_by_value(out_trait.fns.iter().map(|trait_fn| trait_fn.sig())),
+        generics::has_any_receiver_by_value(out_trait.fns.iter().map(|trait_fn| trait_fn.sig())),
     );
     let args = out_trait
         .generics
